@@ -46,4 +46,225 @@ theorem floorC_eq (a : Rat) : floorC a = ⌊a⌋ := by
           have := not_not.mp hi; linarith
         rw [← h2]; simp
 
+
+/-! ### weights of a real voxel -/
+
+theorem nIdx_sub_mem (t : Rat) : 0 < ((nIdx t : Int) : Rat) - t ∧ ((nIdx t : Int) : Rat) - t ≤ 1 := by
+  unfold nIdx; rw [floorC_eq]; push_cast
+  constructor
+  · have := Int.lt_floor_add_one t; linarith
+  · have := Int.floor_le t; linarith
+
+theorem weights_nonneg' {wx wy wz : Rat} (hx : 0 ≤ wx ∧ wx ≤ 1) (hy : 0 ≤ wy ∧ wy ≤ 1)
+    (hz : 0 ≤ wz ∧ wz ≤ 1) : ∀ w ∈ weights wx wy wz, 0 ≤ w := by
+  have e : weights wx wy wz =
+      [wx * wy * wz, wx * wy * (1 - wz), wx * (1 - wy) * wz, wx * (1 - wy) * (1 - wz),
+       (1 - wx) * wy * wz, (1 - wx) * wy * (1 - wz), (1 - wx) * (1 - wy) * wz,
+       (1 - wx) * (1 - wy) * (1 - wz)] := by
+    simp only [weights, List.cons.injEq, and_true]
+    and_intros <;> first | trivial | ring
+  rw [e]
+  have a1 : 0 ≤ 1 - wx := by linarith [hx.2]
+  have a2 : 0 ≤ 1 - wy := by linarith [hy.2]
+  have a3 : 0 ≤ 1 - wz := by linarith [hz.2]
+  intro w hw
+  simp only [List.mem_cons, List.not_mem_nil, or_false] at hw
+  rcases hw with rfl | rfl | rfl | rfl | rfl | rfl | rfl | rfl <;>
+    exact mul_nonneg (mul_nonneg (by first | exact hx.1 | exact a1) (by first | exact hy.1 | exact a2))
+      (by first | exact hz.1 | exact a3)
+
+theorem neighbours_weights (V : Vol) (v : Vox) :
+    (neighbours V v).map (·.2) =
+      weights ((nIdx v.tx : Int) - v.tx) ((nIdx v.ty : Int) - v.ty) ((nIdx v.tz : Int) - v.tz) := by
+  unfold neighbours
+  rw [List.map_snd_zip]
+  simp [offsets, weights]
+
+theorem neighbours_nonneg (V : Vol) (v : Vox) : ∀ p ∈ neighbours V v, 0 ≤ p.2 := by
+  intro p hp
+  have : p.2 ∈ (neighbours V v).map (·.2) := List.mem_map_of_mem hp
+  rw [neighbours_weights] at this
+  exact weights_nonneg' ⟨(nIdx_sub_mem _).1.le, (nIdx_sub_mem _).2⟩ ⟨(nIdx_sub_mem _).1.le, (nIdx_sub_mem _).2⟩
+    ⟨(nIdx_sub_mem _).1.le, (nIdx_sub_mem _).2⟩ _ this
+
+theorem appended_mem {V : Vol} {v : Vox} {p : Int × Rat} (h : p ∈ appended V v) :
+    0 ≤ p.1 ∧ 0 ≤ p.2 ∧ ∃ q, p.1 = V.get q := by
+  unfold appended at h
+  rw [List.mem_filter, List.mem_map] at h
+  obtain ⟨⟨a, ha, rfl⟩, h2⟩ := h
+  exact ⟨by simpa using h2, neighbours_nonneg V v a ha, a.1, rfl⟩
+
+/-- the sum over the kept items of a list with non-negative weights is at most the whole sum -/
+theorem sum_filter_le (l : List (Int × Rat)) (f : Int × Rat → Bool) (h : ∀ p ∈ l, 0 ≤ p.2) :
+    ((l.filter f).map (·.2)).sum ≤ (l.map (·.2)).sum := by
+  induction l with
+  | nil => simp
+  | cons a t ih =>
+      have ht := ih (fun p hp => h p (List.mem_cons_of_mem _ hp))
+      have ha := h a List.mem_cons_self
+      by_cases hf : f a = true
+      · simp only [List.filter_cons, hf, if_true, List.map_cons, List.sum_cons]; linarith
+      · simp only [List.filter_cons, hf, List.map_cons, List.sum_cons]; simp; linarith
+
+theorem sumW_appended_le_one (V : Vol) (v : Vox) : sumW (appended V v) ≤ 1 := by
+  unfold sumW appended
+  refine le_trans (sum_filter_le _ _ ?_) ?_
+  · intro p hp
+    rw [List.mem_map] at hp
+    obtain ⟨a, ha, rfl⟩ := hp
+    exact neighbours_nonneg V v a ha
+  · rw [List.map_map]
+    have : ((fun (p : Int × Rat) => p.2) ∘ fun (p : Nat × Rat) => (V.get p.1, p.2)) = (·.2) := rfl
+    rw [this, neighbours_weights]
+    simp only [weights, List.sum_cons, List.sum_nil]
+    apply le_of_eq; ring
+
+theorem sumW_nonneg_of {nb : List (Int × Rat)} (h : ∀ p ∈ nb, 0 ≤ p.2) : 0 ≤ sumW nb := by
+  unfold sumW
+  apply List.sum_nonneg
+  intro x hx
+  rw [List.mem_map] at hx
+  obtain ⟨p, hp, rfl⟩ := hx
+  exact h p hp
+
+/-! ### random pick -/
+
+theorem pick_valid (nb : List (Int × Rat)) : ∀ (acc draw : Rat), acc ≤ draw → draw < acc + sumW nb →
+    ∃ j w, pick nb acc draw = some j ∧ (j, w) ∈ nb ∧ 0 < w := by
+  induction nb with
+  | nil => intro acc draw h1 h2; simp [sumW] at h2; linarith
+  | cons p r ih =>
+      intro acc draw h1 h2
+      have hs : sumW (p :: r) = p.2 + sumW r := by simp [sumW]
+      by_cases hc : acc + p.2 > draw
+      · refine ⟨p.1, p.2, ?_, ?_, ?_⟩
+        · simp [pick, hc]
+        · simp
+        · linarith
+      · obtain ⟨j, w, e, m, hw⟩ := ih (acc + p.2) draw (not_lt.mp hc) (by rw [hs] at h2; linarith)
+        exact ⟨j, w, by simp [pick, hc, e], List.mem_cons_of_mem _ m, hw⟩
+
+/-! ### weighted mean stays in the intensity range -/
+
+theorem wmean_bounds (nb : List (Int × Rat)) (c : Rat) (h : ∀ p ∈ nb, 0 ≤ p.2 ∧ 0 ≤ (p.1 : Rat) ∧ (p.1 : Rat) ≤ c) :
+    0 ≤ wmean nb ∧ wmean nb ≤ c * sumW nb := by
+  induction nb with
+  | nil => simp [wmean, sumW]
+  | cons p r ih =>
+      obtain ⟨i1, i2⟩ := ih (fun q hq => h q (List.mem_cons_of_mem _ hq))
+      obtain ⟨a, b, d⟩ := h p List.mem_cons_self
+      have e1 : wmean (p :: r) = p.2 * (p.1 : Rat) + wmean r := by simp [wmean]
+      have e2 : sumW (p :: r) = p.2 + sumW r := by simp [sumW]
+      rw [e1, e2]
+      constructor
+      · have := mul_nonneg a b; linarith
+      · have := mul_le_mul_of_nonneg_left d a; nlinarith
+
+theorem uround_bounds {x : Rat} {c : Int} (h0 : 0 ≤ x) (h1 : x ≤ c) : 0 ≤ uround x ∧ uround x ≤ c := by
+  unfold uround
+  rw [truncC_nonneg (by linarith)]
+  constructor
+  · apply Int.floor_nonneg.mpr; linarith
+  · have : ⌊x + 1 / 2⌋ < c + 1 := by
+      rw [Int.floor_lt]; push_cast; linarith
+    omega
+
+/-! ### total mass of a histogram -/
+
+theorem histAt_cons (d : Dep) (ds : List Dep) (k : Nat) :
+    histAt (d :: ds) k = (if d.1 = (k : Int) then d.2 else 0) + histAt ds k := by
+  unfold histAt mass
+  by_cases h : d.1 = (k : Int) <;> simp [h]
+
+theorem sum_range_indicator (n : Nat) (a : Int) (w : Rat) (h0 : 0 ≤ a) (h1 : a < n) :
+    ((List.range n).map (fun (k : Nat) => if a = (k : Int) then w else 0)).sum = w := by
+  induction n with
+  | zero => omega
+  | succ m ih =>
+      rw [List.range_succ, List.map_append, List.sum_append]
+      by_cases hm : a = (m : Int)
+      · have hz : ((List.range m).map (fun (k : Nat) => if a = (k : Int) then w else 0)).sum = 0 := by
+          apply List.sum_eq_zero
+          intro x hx
+          rw [List.mem_map] at hx
+          obtain ⟨k, hk, rfl⟩ := hx
+          have : k < m := List.mem_range.mp hk
+          rw [if_neg]; omega
+        rw [hz]; simp [hm]
+      · have : a < (m : Int) := by push_cast at h1; omega
+        rw [ih this]; simp [hm]
+
+theorem hist_sum (n : Nat) (ds : List Dep) (h : ∀ d ∈ ds, 0 ≤ d.1 ∧ d.1 < (n : Int)) :
+    (hist n ds).sum = mass ds := by
+  induction ds with
+  | nil =>
+      have : (hist n []).sum = 0 := by
+        apply List.sum_eq_zero
+        intro x hx
+        unfold hist at hx
+        rw [List.mem_map] at hx
+        obtain ⟨k, _, rfl⟩ := hx
+        simp [histAt, mass]
+      rw [this]; simp [mass]
+  | cons d t ih =>
+      have hd := h d List.mem_cons_self
+      have e : hist n (d :: t) = (List.range n).map (fun (k : Nat) => (if d.1 = (k : Int) then d.2 else 0) + histAt t k) := by
+        unfold hist; apply List.map_congr_left; intro k _; exact histAt_cons d t k
+      rw [e, List.sum_map_add, sum_range_indicator n d.1 d.2 hd.1 hd.2]
+      have := ih (fun q hq => h q (List.mem_cons_of_mem _ hq))
+      unfold hist at this
+      rw [this]; simp [mass]
+
+
+/-! ### bounds of the neighbour indices, integer coordinates -/
+
+theorem nIdx_range {t : Rat} {d : Nat} (h0 : -1 < t) (h1 : t < d) : 0 ≤ nIdx t ∧ nIdx t ≤ d := by
+  unfold nIdx; rw [floorC_eq]
+  have a : -1 ≤ ⌊t⌋ := by rw [Int.le_floor]; push_cast; linarith
+  have b : ⌊t⌋ < d := by rw [Int.floor_lt]; exact_mod_cast h1
+  omega
+
+
+theorem zero_weights_filter (l : List (Int × Rat)) (f : Int × Rat → Bool) (h : ∀ p ∈ l, p.2 = 0) :
+    sumW (l.filter f) = 0 ∧ wmean (l.filter f) = 0 := by
+  induction l with
+  | nil => simp [sumW, wmean]
+  | cons a t ih =>
+      obtain ⟨i1, i2⟩ := ih (fun p hp => h p (List.mem_cons_of_mem _ hp))
+      have ha := h a List.mem_cons_self
+      by_cases hf : f a = true
+      · simp only [List.filter_cons, hf, if_true]
+        simp only [sumW, wmean, List.map_cons, List.sum_cons] at *
+        rw [i1, i2, ha]; simp
+      · simp only [List.filter_cons, hf]
+        exact ⟨i1, i2⟩
+
+
+theorem neighbours_integer (V : Vol) (i : Int) (x y z : Nat) :
+    neighbours V ⟨i, x, y, z⟩ =
+      let q := (x + 1) * V.u4 + (y + 1) * V.u2 + (z + 1)
+      [(q, 1), (q + 1, 0), (q + V.u2, 0), (q + (V.u2 + 1), 0), (q + V.u4, 0), (q + (V.u4 + 1), 0),
+       (q + (V.u4 + V.u2), 0), (q + (V.u4 + V.u2 + 1), 0)] := by
+  have hn : ∀ n : Nat, nIdx (n : Rat) = (n : Int) + 1 := by
+    intro n; unfold nIdx; rw [floorC_eq]; simp
+  have hoff : (offOf V ⟨i, x, y, z⟩).toNat = (x + 1) * V.u4 + (y + 1) * V.u2 + (z + 1) := by
+    unfold offOf; simp only [hn]; norm_cast
+  unfold neighbours
+  rw [hoff]
+  simp [offsets, weights, hn]
+
+
+theorem appended_integer (V : Vol) (i j : Int) (x y z : Nat) (hj : 0 ≤ j)
+    (hv : V.get ((x + 1) * V.u4 + (y + 1) * V.u2 + (z + 1)) = j) :
+    ∃ rest, appended V ⟨i, x, y, z⟩ = (j, 1) :: rest ∧ sumW rest = 0 ∧ wmean rest = 0 := by
+  unfold appended
+  rw [neighbours_integer]
+  simp only [List.map_cons, List.map_nil, hv]
+  rw [List.filter_cons_of_pos (by simpa using hj)]
+  exact ⟨_, rfl, zero_weights_filter _ _ (by
+    intro p hp
+    simp only [List.mem_cons, List.not_mem_nil, or_false] at hp
+    rcases hp with rfl | rfl | rfl | rfl | rfl | rfl | rfl <;> rfl)⟩
+
+
 end NipyVerif.C09
